@@ -12,11 +12,17 @@ every batch and every measured value:
    absent exactly for START / STOPT / MACAR triggers;
  * `unknown_urr_dropped`, `unknown_session_dropped`: reports for unknown URRs / sessions are dropped and the rest
    of the batch is unaffected (C11 `other_urr_untouched`).
+ * `groups_*` (the kernel's REPORT multicast, M-Krep): for EVERY message — any number of reports, sessions interleaved in any
+   way — each session that has a report gets exactly one notification (`groups_keys_nodup`, `mem_seids`), carrying exactly
+   its own reports in message order (`groups_own`), nothing is lost or duplicated (`groups_total`), and what a session
+   gets does not depend on the other sessions' reports (`groupOf_other`) nor on the order of notification.
 Known finding (recorded, see DESIGN.md §8): the destination is "<node id>:8805" resolved as udp4; for IPv6 or FQDN
 node ids nothing is sent — `unresolvable_node_drops` states exactly what the code does.
 -/
 import UpfVerif.Model.Core
+import UpfVerif.Model.Krep
 import UpfVerif.Lemmas.Core
+import UpfVerif.Lemmas.CoreRef
 import UpfVerif.Props.C11
 
 namespace UpfVerif.C10
@@ -86,6 +92,119 @@ theorem times_absent_iff (s : Sess) (r : Report) (info : URRInfo) (h : alGet s.u
 
 theorem unknown_urr_dropped (s : Sess) (r : Report) (h : alGet s.urrs r.urr = none) :
     emitOne s r 0 false = (s, none) := C11.emit_unknown s r 0 false h
+
+/-! ### the REPORT multicast: grouping by session -/
+section Grouping
+open UpfVerif.Krep
+variable {α : Type}
+
+theorem nodup_eraseDups' (l : List Nat) : l.eraseDups.Nodup := Core.nodup_eraseDups l
+
+/-- one notification per session -/
+theorem groups_keys_nodup (items : List (Nat × α)) : ((groups items).map (·.1)).Nodup := by
+  have : (groups items).map (·.1) = seids items := by
+    simp [groups, List.map_map, Function.comp_def]
+  rw [this]; exact nodup_eraseDups' _
+
+/-- exactly the sessions that have a report in the message are notified -/
+theorem mem_seids (items : List (Nat × α)) (x : Nat) : x ∈ seids items ↔ ∃ r, (x, r) ∈ items := by
+  unfold seids
+  rw [List.mem_eraseDups, List.mem_map]
+  constructor
+  · rintro ⟨p, hp, rfl⟩; exact ⟨p.2, hp⟩
+  · rintro ⟨r, hr⟩; exact ⟨(x, r), hr, rfl⟩
+
+/-- each notification carries exactly its session's reports, in message order — and is not empty -/
+theorem groups_own (items : List (Nat × α)) (x : Nat) (g : List α) (h : (x, g) ∈ groups items) :
+    g = groupOf items x ∧ g ≠ [] := by
+  unfold groups at h
+  obtain ⟨y, hy, e⟩ := List.mem_map.mp h
+  simp only [Prod.mk.injEq] at e
+  obtain ⟨rfl, rfl⟩ := e
+  refine ⟨rfl, ?_⟩
+  obtain ⟨r, hr⟩ := (mem_seids items y).mp hy
+  intro he
+  have : r ∈ groupOf items y := by
+    unfold groupOf
+    exact List.mem_map.mpr ⟨(y, r), List.mem_filter.mpr ⟨hr, by simp⟩, rfl⟩
+  rw [he] at this; cases this
+
+/-- a session's notification is a function of its own reports only: adding, removing or re-ordering other sessions'
+    reports (known or unknown sessions alike) does not change it -/
+theorem groupOf_other (items : List (Nat × α)) (x : Nat) :
+    groupOf items x = groupOf (items.filter (·.1 == x)) x := by
+  unfold groupOf
+  rw [List.filter_filter]
+  congr 1
+  apply List.filter_congr
+  intro p _; simp
+
+theorem sum_zero (L : List Nat) : (L.map fun _ => 0).sum = 0 := by
+  induction L with
+  | nil => rfl
+  | cons y L ih => simp only [List.map_cons, List.sum_cons, ih]
+
+theorem sum_indicator (L : List Nat) (a : Nat) (hn : L.Nodup) (ha : a ∈ L) :
+    (L.map fun x => if x = a then 1 else 0).sum = 1 := by
+  induction L with
+  | nil => cases ha
+  | cons y L ih =>
+    rw [List.nodup_cons] at hn
+    simp only [List.map_cons, List.sum_cons]
+    by_cases hy : y = a
+    · subst hy
+      have : (L.map fun x => if x = y then 1 else 0) = L.map fun _ => 0 := by
+        apply List.map_congr_left
+        intro x hx
+        have : x ≠ y := fun e => hn.1 (e ▸ hx)
+        simp [this]
+      rw [this, sum_zero]; simp
+    · have ha' : a ∈ L := by
+        rcases List.mem_cons.mp ha with h | h
+        · exact absurd h.symm hy
+        · exact h
+      simp [hy, ih hn.2 ha']
+
+theorem sum_groups_aux (L : List Nat) (hn : L.Nodup) (items : List (Nat × α)) (hc : ∀ p ∈ items, p.1 ∈ L) :
+    (L.map fun x => (groupOf items x).length).sum = items.length := by
+  induction items with
+  | nil => simp only [groupOf, List.filter_nil, List.map_nil, List.length_nil]; exact sum_zero L
+  | cons p items ih =>
+    have hp : p.1 ∈ L := hc p (by simp)
+    have ih' := ih (fun q hq => hc q (by simp [hq]))
+    have e : ∀ x, (groupOf (p :: items) x).length = (if x = p.1 then 1 else 0) + (groupOf items x).length := by
+      intro x
+      unfold groupOf
+      by_cases hx : x = p.1
+      · subst hx; simp [List.filter]
+        omega
+      · have : (p.1 == x) = false := by simpa using (Ne.symm hx)
+        simp [List.filter, this, hx]
+    have : (L.map fun x => (groupOf (p :: items) x).length) =
+        L.map fun x => (if x = p.1 then 1 else 0) + (groupOf items x).length := by
+      apply List.map_congr_left; intro x _; exact e x
+    rw [this]
+    have hs : ∀ (f g : Nat → Nat) (l : List Nat), (l.map fun x => f x + g x).sum = (l.map f).sum + (l.map g).sum := by
+      intro f g l
+      induction l with
+      | nil => simp
+      | cons y l ihl => simp only [List.map_cons, List.sum_cons, ihl]; omega
+    rw [hs, sum_indicator L p.1 hn hp, ih']
+    simp only [List.length_cons]; omega
+
+/-- nothing is lost, nothing is delivered twice: the notifications together carry as many reports as the message -/
+theorem groups_total (items : List (Nat × α)) : ((groups items).map (·.2.length)).sum = items.length := by
+  have e : (groups items).map (·.2.length) = (seids items).map fun x => (groupOf items x).length := by
+    simp [groups, List.map_map, Function.comp_def]
+  rw [e]
+  apply sum_groups_aux _ (nodup_eraseDups' _)
+  intro p hp
+  exact (mem_seids items p.1).mpr ⟨p.2, by simpa using hp⟩
+
+example : groups [(5, "a"), (9, "b"), (5, "c"), (7, "d"), (9, "e")] = [(5, ["a", "c"]), (9, ["b", "e"]), (7, ["d"])] := by
+  decide
+
+end Grouping
 
 /-! ### non-vacuity -/
 example :
